@@ -174,3 +174,45 @@ def ripemd160_fast(msg):
 
 def hash160(b):
     return ripemd160_fast(sha256(b))
+
+
+def ripemd160_rare_events(msg):
+    """Which RARE 32-bit intermediate words occur while RIPEMD-160 (own implementation) compresses `msg`:
+    't=ffffffff' / 't=0'  - the word that is rotated in some step, (a + f(b,c,d) + X + K) mod 2^32, is all ones / zero;
+    'c=ffffffff' / 'c=0'  - the word given to the fixed rotation by 10 is all ones / zero.
+    Used to certify the committed corpus of inputs that drive the bundled pure-Python RIPEMD-160 through these corners (each has
+    probability ~160 * 2^-32 per block, i.e. random testing meets one per ~3*10^7 hashes)."""
+    events = set()
+    h = [0x67452301, 0xEFCDAB89, 0x98BADCFE, 0x10325476, 0xC3D2E1F0]
+    ml = len(msg)
+    padded = msg + b"\x80"
+    while len(padded) % 64 != 56:
+        padded += b"\x00"
+    padded += ((ml * 8) & 0xFFFFFFFFFFFFFFFF).to_bytes(8, "little")
+    for off in range(0, len(padded), 64):
+        X = [int.from_bytes(padded[off + 4 * i: off + 4 * i + 4], "little") for i in range(16)]
+        res = []
+        for rounds in (_LEFT, _RIGHT):
+            a, b, c, d, e = h
+            for f, k, sel, sh in rounds:
+                for j in range(16):
+                    t0 = (a + (f(b, c, d) & _M32) + X[sel[j]] + k) & _M32
+                    if t0 == _M32:
+                        events.add("t=ffffffff")
+                    if t0 == 0:
+                        events.add("t=0")
+                    if c == _M32:
+                        events.add("c=ffffffff")
+                    if c == 0:
+                        events.add("c=0")
+                    t = (_rol32(t0, sh[j]) + e) & _M32
+                    a, e, d, c, b = e, d, _rol32(c, 10), b, t
+            res.append((a, b, c, d, e))
+        (al, bl, cl, dl, el), (ar, br, cr, dr, er) = res
+        t = (h[1] + cl + dr) & _M32
+        h[1] = (h[2] + dl + er) & _M32
+        h[2] = (h[3] + el + ar) & _M32
+        h[3] = (h[4] + al + br) & _M32
+        h[4] = (h[0] + bl + cr) & _M32
+        h[0] = t
+    return events, b"".join(x.to_bytes(4, "little") for x in h)
